@@ -161,9 +161,10 @@ func checkEntryDiff(tag string, recs []diffRec, mdOld, mdNew *symModel) {
 		case r.added && r.removed:
 			ok = false
 		case r.added:
-			ok = verifAnd(verifAnd(!f1, f2), verifAnd(r.hasAv, r.av == v2))
+			// an added key has a new value and no old value
+			ok = verifAnd(verifAnd(!f1, f2), verifAnd(verifAnd(r.hasAv, r.av == v2), !r.hasRv))
 		case r.removed:
-			ok = verifAnd(verifAnd(f1, !f2), verifAnd(r.hasRv, r.rv == v1))
+			ok = verifAnd(verifAnd(f1, !f2), verifAnd(verifAnd(r.hasRv, r.rv == v1), !r.hasAv))
 		default:
 			ok = verifAnd(verifAnd(f1, f2), verifAnd(v1 != v2, verifAnd(verifAnd(r.hasAv, r.av == v2), verifAnd(r.hasRv, r.rv == v1))))
 		}
